@@ -1,6 +1,7 @@
 """C06 — a sharding key always maps to PostgreSQL's hash partition, by every routing path."""
 from mirlib import *
 from symterm import SymEval, mk, show
+from common import positions_follow_numeric_shard_ids
 
 QR = "pgcat::query_router::QueryRouter::"
 SH = "pgcat::sharding::Sharder::"
@@ -209,6 +210,8 @@ def run(ctx):
         if v:
             lt = [st for _, _, st in v.assigns() if st["rv"]["k"] == "bin" and st["rv"]["op"] == "Lt"]
             r3.check(bool(lt) and any(c.name.endswith("ConnectionPool::shards") for c in v.calls()), "valid=shard<shards", "valid_shard_id is `shard < shards()`", "valid_shard_id is no longer `shard < shards()`")
+        r3.check(positions_follow_numeric_shard_ids(F), "positions=shard-ids", "the pools are stored at the position of their numeric shard id (from_config sorts the shard keys numerically), so databases[address.shard] is that shard",
+                 "from_config does not order the shard keys numerically before filling the positional vectors: databases[address.shard] is another shard's pool once there are 11+ shards (string order \"10\" < \"2\")")
         idx = [c for c in g.calls("re:Index<.*::index$") if "databases" in fields_of(g, c.args[0], taint=True)]
         okx = False
         fl = set()
